@@ -940,7 +940,16 @@ func (m *Model) command(neg bool, name string, args []string) {
 		}
 		m.noNeg(neg, name)
 		if len(m.bg) > 0 {
-			m.unmodelled("skip with background processes")
+			// skip interrupts every background command, then behaves like the unnamed wait
+			for _, b := range m.bg {
+				if !b.block {
+					m.unmodelled("skip while a short-lived background process may or may not have exited")
+				}
+				if b.sig == "" {
+					b.sig = "INT"
+				}
+			}
+			m.wait(false, nil)
 		}
 		panic(skipPanic{})
 	case "stop":
